@@ -20,7 +20,7 @@ func init() {
 			"exported functions/methods are roots that nobody guards. A flag operand that is a φ counts per incoming edge; a function whose flag operand is its own parameter is a forwarder " +
 			"(its callers carry the obligation). Writes through an open handle are covered by the handle having been opened O_RDONLY.",
 		Props: []string{"C18"},
-		Floor: 4,
+		Floor: 3,
 		Run:   ruleRO,
 		Exceptions: []string{
 			"smat.go (build tag gofuzz): fuzzing harness, not part of the library's API surface",
